@@ -13,6 +13,7 @@ def run(ctx):
     vlib.tlc_mc(ctx, 'MC_Process', 'MC_Process' if ctx.quick else 'MC_Process_big', workers=12)
     histcommon.plan_multi(ctx)
     vlib.GOENV['VERIF_MULTI_SKIP'] = 'kueku'          # one lint reads those; C05 and the KeyUsage rule family cover them
+    histcommon.cfg_probe(ctx, exe)
     stab = {}
 
     def keyfn(r):
